@@ -90,9 +90,13 @@ union U
     on Opt?
     e Empty?
     b Base
+    bn Base?
     cl Closed
+    cln Closed?
     w W
+    wn W?
     l List(Opt)
+    lb List(Base)?
 
 union_closed W
     a
